@@ -7,6 +7,7 @@ Driver for C11.  A block is
   end
 
 zones   `-` | zone`|`zone…      zone = <name token>`=`handlers      handlers = `-` | h`,`h…
+                                 (`-<name token>=-` removes that origin again: `Catalog::remove`)
 h       `mem/<0|1>`             in-memory zone, AXFR denied / allowed
         `scr/<p|s|e>/<flow>/<flow|->/<update rcode>/<n|o|z|eRC>`   scripted handler
 flow    `S` | `Co` | `Cr` (referral) | `Cz` | `Ce<rc>` | `Bo` | `Br` | `Bz` | `Be<rc>`
@@ -55,6 +56,9 @@ def parseLRes (s : String) : Option LRes :=
   match s.toList with
   | ['o'] => some .ok
   | ['r'] => some .referral
+  -- `Ok(records)` that cannot be encoded: for the model (which describes responses whose encoding
+  -- succeeds) an `Ok`; the harness runs such cases implementation-vs-oracle only
+  | ['u'] => some .ok
   | ['z'] => some .zone
   | 'e' :: rc => (String.ofList rc).toNat?.map .err
   | _ => none
@@ -96,10 +100,19 @@ def parseZone (idx : Nat) (s : String) : Option Zone :=
   | [n, hs] => do pure { idx := idx, origin := ← parseName n, handlers := ← parseHandlers hs }
   | _ => none
 
+/-- a zone entry `-<name token>=…` removes that origin again (`Catalog::remove`) -/
+def applyZone (cat : Catalog) (p : String × Nat) : Option Catalog :=
+  match p.1.toList with
+  | '-' :: rest => do
+    let z ← parseZone p.2 (String.ofList rest)
+    pure (removeZone cat z.origin)
+  | _ => do
+    let z ← parseZone p.2 p.1
+    pure (upsert cat z)
+
 def parseZones (s : String) : Option Catalog :=
-  if s == "-" then some [] else do
-    let zs ← (s.splitOn "|").zipIdx.mapM (fun p => parseZone p.2 p.1)
-    pure (zs.foldl upsert [])
+  if s == "-" then some [] else
+    (s.splitOn "|").zipIdx.foldlM applyZone []
 
 def showCall : Call → String
   | .search z h => s!"s{z}.{h}"
@@ -197,6 +210,14 @@ def step (s : State) (toks : List String) : State × String :=
     | some cfg, some ip, some buf, some zl =>
       (s, showGate buf (serve { cfg with catalog := substZl cfg.catalog zl } ip buf))
     | _, _, _, _ => (s, "bad-op")
+  | ["cat", _proto, _src, bytes, _body, _edns, zl] =>
+    -- `Request::from_bytes` + `Catalog::handle_request`, no gate in front
+    match s, parseHex bytes, parseZl zl with
+    | some cfg, some buf, some zl =>
+      (s, match catalogEntry (substZl cfg.catalog zl) buf with
+          | none => "err"
+          | some g => showGate buf g)
+    | _, _, _ => (s, "bad-op")
   | ["udp", recv, send] =>
     match s, (recv.splitOn ",").mapM parseDgram, parseSendScript send with
     | some cfg, some r, some sc => (s, "udp " ++ udpAnswer cfg r sc)
